@@ -5,6 +5,36 @@ from ipaddress import IPv4Address, IPv6Address
 from tools.facts.common import fresh_import
 
 
+def need_data_class(socks, util):
+    """The exception class `next_message()` raises when it needs more reply bytes.  It is a
+    private name of the library (not in `__all__`), so it is found by behaviour: a fresh SOCKS5
+    object that has produced its greeting is asked for the next message with nothing received.
+    Falls back to the attribute `NeedData`, then to a class nothing raises."""
+    try:
+        c = socks.SOCKS5(util.NetAddress('1.2.3.4', 80), None)
+        c.next_message()
+        try:
+            c.next_message()
+        except Exception as e:      # the probe: whatever is raised here is "need more data"
+            if not isinstance(e, socks.SOCKSError):
+                return type(e)
+    except Exception:               # the probe itself could not run: use the name
+        pass
+    return getattr(socks, 'NeedData', type('NoNeedData', (Exception,), {}))
+
+
+def need_count(e):
+    """how many bytes a need-more-data exception asks for (None if it does not say)"""
+    for v in getattr(e, 'args', ()):
+        if isinstance(v, int) and not isinstance(v, bool):
+            return v
+    for name in ('count', 'size', 'needed', 'missing'):
+        v = getattr(e, name, None)
+        if isinstance(v, int) and not isinstance(v, bool):
+            return v
+    return None
+
+
 class Mods:
     """the repo's modules, imported from the tree under test"""
 
@@ -12,6 +42,7 @@ class Mods:
         self.socks = fresh_import(repo, 'aiorpcx.socks')
         self.util = fresh_import(repo, 'aiorpcx.util')
         self.cls = {'4': self.socks.SOCKS4, '4a': self.socks.SOCKS4a, '5': self.socks.SOCKS5}
+        self.NeedData = need_data_class(self.socks, self.util)
 
 
 class Livelock(BaseException):
@@ -19,9 +50,10 @@ class Livelock(BaseException):
 
 
 class watchdog:
-    """`with watchdog(seconds):` raises Livelock inside the block when it runs longer than
-    that (pure-Python spin loops never return to the event loop, so a timer signal is the only
-    way to observe them)."""
+    """`with watchdog(seconds):` raises Livelock inside the block when it has used more than
+    that much CPU time (pure-Python spin loops never return to the event loop, so a timer signal
+    is the only way to observe them).  CPU time of this process, not wall-clock time: a loaded
+    machine must not turn into an observation."""
 
     def __init__(self, seconds):
         self.seconds = seconds
@@ -32,13 +64,13 @@ class watchdog:
     def __enter__(self):
         import signal
         self._signal = signal
-        self._old = signal.signal(signal.SIGALRM, self._fire)
-        signal.setitimer(signal.ITIMER_REAL, self.seconds)
+        self._old = signal.signal(signal.SIGVTALRM, self._fire)
+        signal.setitimer(signal.ITIMER_VIRTUAL, self.seconds)
         return self
 
     def __exit__(self, *exc):
-        self._signal.setitimer(self._signal.ITIMER_REAL, 0)
-        self._signal.signal(self._signal.SIGALRM, self._old)
+        self._signal.setitimer(self._signal.ITIMER_VIRTUAL, 0)
+        self._signal.signal(self._signal.SIGVTALRM, self._old)
         return False
 
 
@@ -51,8 +83,11 @@ class StubAddress:
 
 
 # a case is (proto, host, port, auth) with
-#   host = ('4', bytes4) | ('6', bytes16) | ('n', str)
+#   host = ('4', bytes4) | ('6', bytes16) | ('z', bytes16: IPv6 with the zone ZONE) | ('n', str)
 #   auth = None | (username str, password str)
+ZONE = 'eth0'
+
+
 def enc_cps(s):
     return '.'.join(format(ord(ch), 'x') for ch in s) if s else '_'
 
@@ -80,7 +115,7 @@ def dec_cps(s):
 
 
 def dec_case(line):
-    proto, h, port, a = line.split()
+    proto, h, port, a = line.split()[:4]
     kind, v = h.split(':')
     host = ('n', dec_cps(v)) if kind == 'n' else (kind, bytes.fromhex(v))
     auth = None
@@ -103,7 +138,15 @@ def host_object(host):
         return IPv4Address(bytes(v))
     if kind == '6':
         return IPv6Address(bytes(v))
+    if kind == 'z':
+        return IPv6Address(f'{IPv6Address(bytes(v))}%{ZONE}')
     return v
+
+
+def host_string(host):
+    """the destination as a caller of create_connection would write it"""
+    kind, v = host
+    return v if kind == 'n' else str(host_object(host))
 
 
 def make_address(mods, host, port, stub=False):
@@ -125,19 +168,30 @@ def exc_name(e):
     return type(e).__name__
 
 
+def observable_tokens(tokens):
+    """property-level view of a by-hand dialogue: messages, final verdict, and whether the
+    object ends still wanting data.  The values (and number) of the intermediate
+    need-more-data requests are an implementation choice: a parser that looks at the version
+    byte before asking for the rest of a reply behaves the same as far as C16 / C17 go."""
+    out = [t for t in tokens if not (t.startswith('N') and t != 'None')]
+    if tokens and tokens[-1].startswith('N') and tokens[-1] != 'None':
+        out.append('starved')
+    return out
+
+
 def drive_object(mods, client, chunks, fuel=16):
     """next_message() / receive_data(chunk) by hand, exactly like the model's `driveObject`:
     returns the list of results ('M<hex>', 'None', 'N<k>', 'E:<Exception>') and the raw
     messages/exception for the oracle."""
     out, raw = [], []
     chunks = list(chunks)
-    NeedData = mods.socks.NeedData
+    NeedData = mods.NeedData
     for _ in range(fuel):
         try:
             m = client.next_message()
         except NeedData as e:
-            out.append(f'N{e.args[0]}')
-            raw.append(('need', e.args[0]))
+            out.append(f'N{need_count(e)}')
+            raw.append(('need', need_count(e)))
             if not chunks:
                 break
             client.receive_data(chunks.pop(0))
